@@ -332,6 +332,22 @@ def run(ctx):
     ok = any(isinstance(c, ast.Call) and dotted(c.func) == "super().tags" for c in walk_shallow(tf, include_self=False))
     ctx.check("R-TFR-TAGS", "tags() also updates the forwarder's own context", tf, ok, "current_tags of the forwarder would not reflect the change", construct=f"{REAL}:ThreadsafeForwardingResult.tags::own-context")
 
+    helper = own_method(ctx, REAL, "ThreadsafeForwardingResult", "_add_result_with_semaphore")
+    gh = cfg_of(ctx, helper)
+    from ..cfg import live_nodes as _live
+    from .common import nodes_calling as _nc
+    lvh = _live(gh)
+
+    def tags_of(buf):
+        return _nc(gh, lambda c: dotted(c.func) == "self.result.tags" and len(c.args) == 1 and isinstance(c.args[0], ast.Starred) and dotted(c.args[0].value) == buf, lvh)
+
+    gg, gt = tags_of("self._global_tags"), tags_of("self._test_tags")
+    others = [n for n in _nc(gh, lambda c: dotted(c.func) == "self.result.tags", lvh) if n not in gg + gt]
+    ok = len(gg) == 1 and len(gt) == 1 and not others and not (set(gh.reach(gh.after(gt[0]))) & set(gg))
+    ctx.check("R-TFR-TAGS", "the block forwards the run-level buffer, then the test's own buffer, unmerged (test-local changes win)", helper, ok,
+              "the forwarded tags are not tags(*self._global_tags) followed by tags(*self._test_tags): a test-local change can be overridden by a run-level one, "
+              "so the target sees tags that differ from the reporter's current_tags at the outcome", construct=f"{REAL}:ThreadsafeForwardingResult._add_result_with_semaphore::tags-order")
+
     # ------------------------------------------------------------------ observed tags
     conv = own_method(ctx, REAL, "ExtendedToStreamDecorator", "_convert")
     finals = [c for c in walk_shallow(conv, include_self=False) if isinstance(c, ast.Call) and dotted(c.func) == "self.status" and any(k.arg == "test_status" for k in c.keywords)]
